@@ -98,9 +98,9 @@ class Routing(SM.Monitor):
                 if routed:
                     sim.fail(f'unknown-spi-routed:{ev.kind}', f'a datagram whose header selects local SPI {pre["my_spi"]}, which no '
                                                               f'IKE_SA in the table has, was handed to an IKE_SA')
-                if ev.out:
+                if c08.fresh_output(sim, ev.out):
                     sim.fail('unknown-spi-answered', 'a datagram for an unknown SPI was answered')
-                if c08.snap(ep) != pre['snap']:
+                if not c08.same_but_resends(pre['snap'], c08.snap(ep), ev.out):
                     sim.fail('unknown-spi-changed-state', 'a datagram for an unknown SPI changed the endpoint: ' +
                              c08.diff(pre['snap'], c08.snap(ep)))
             else:
@@ -117,7 +117,7 @@ class Routing(SM.Monitor):
                 self.classes.add('expire-unknown-spi')
                 if got:
                     sim.fail('expire-unknown-routed', 'an EXPIRE for an SPI nobody owns was handed to an IKE_SA')
-                if ev.out or c08.snap(ep) != px['snap']:
+                if c08.fresh_output(sim, ev.out) or not c08.same_but_resends(px['snap'], c08.snap(ep), ev.out):
                     sim.fail('expire-unknown-effect', 'an EXPIRE for an SPI nobody owns had an effect')
             else:
                 self.classes.add('expire-known:' + px['owners'][0].state.name)
